@@ -133,6 +133,9 @@ static bool relevant(const std::string& prop, const std::string& vprops, const C
     if (in_fault) return false;
     if (prop == "C01") return generic && is_c01_op(k) && !e.seen_pair_op;
     if (prop == "C02") return mem || has_prop(vprops, "CRASH");
+    // a stored value that differs from the model after an operation that was not asked to write it has been
+    // overwritten while alive (the only way the clause is observable for trivial value types)
+    if (prop == "C06") return has_prop(vprops, "VAL") && !is_ref_op(k);
     if (prop == "C09") return generic && (is_pair_op(k) || e.seen_pair_op);
     if (prop == "C10") return (generic || mem) && (k == O_RS || e.fill_phase);
     if (prop == "C11") return (generic && is_ref_op(k)) || false;
